@@ -137,7 +137,7 @@ func insertVertex(tx kvi.KVBulkWrite, idx *kvindex.KVIndex, graph string, vertex
 	key := VertexKey(graph, vertex.Gid)
 	value, err := proto.Marshal(vertex)
 	if err != nil {
-		return nil
+		return err
 	}
 	doc := map[string]interface{}{graph: vertexIdxStruct(vertex)}
 	if err := tx.Set(key, value); err != nil {
